@@ -1843,9 +1843,9 @@ func (p *parser) generateClosureForTypeScriptNamespaceOrEnum(
 				IsExport: isExport,
 			}})
 		} else {
-			// Nested namespace: "let"
+			// Nested namespace: "let" (or "var" if "let" isn't supported)
 			stmts = append(stmts, js_ast.Stmt{Loc: stmtLoc, Data: &js_ast.SLocal{
-				Kind:  js_ast.LocalLet,
+				Kind:  p.selectLocalKind(js_ast.LocalLet),
 				Decls: decls,
 			}})
 		}
